@@ -13,6 +13,7 @@ inductive Corruption
   | contentToSymlink | contentToEmptyDir | dirToSymlink | dirToEmptyDir
   | rootInvByte | verInvByte | rootSidecarDigest | verSidecarDigest
   | declDelete | declAlter | strayRoot | strayVersion | strayContent | removeVersionDir
+  | metaToSymlink | metaToEmptyDir      -- an inventory, sidecar or declaration file replaced
   deriving DecidableEq, Repr
 
 /-- corruptions of structure: anything but the bytes inside a content file -/
@@ -45,6 +46,8 @@ def expectedCodes (c : Corruption) (fixity : Bool) : List String :=
   | .strayVersion => ["E015"]
   | .strayContent => ["E024"]
   | .removeVersionDir => ["E010", "E092"]
+  | .metaToSymlink => ["E090", "E001", "E003", "E015", "E058", "E063"]
+  | .metaToEmptyDir => ["E001", "E003", "E015", "E024", "E058", "E063", "E034"]
 
 /-! ### the sidecar check (`validate_sidecar`, mod.rs:1080-1135) -/
 
